@@ -52,7 +52,7 @@ def cases(draw, tier):
     surface = sl[0] if sl else ''
     relation = draw(st.sampled_from(['scale', 'scale', 'price', 'efficiency', 'neutral']))
     cost = []
-    use_totals = draw(st.booleans()) or surface in ('district', 'chiller')
+    use_totals = (draw(st.integers(0, 2)) == 0 and surface != 'heatpump') or surface in ('district', 'chiller')
     if use_totals:
         for n, lo, hi in TOTALS:
             cost.append([n, gen.fmt(draw(gen.nice_floats(lo, hi)))])
